@@ -3,7 +3,7 @@
 (* driver only converts text to the [json] datatype and back.                       *)
 From LCM Require Import Base.Prelude Base.Arr Base.ArrOps Base.PyVal Base.Json Base.QKernel.
 From LCM Require Import Gen.GridHelpersQ Gen.NdimageKernel Gen.GridValidate Gen.DiscreteNoShocks Gen.Argmax.
-From LCM Require Import Spec.Interp Spec.GridRules Model.Ndimage Model.Grids.
+From LCM Require Import Spec.Interp Spec.GridRules Model.Ndimage Model.Grids Model.Functools Model.Dispatchers.
 Local Open Scope string_scope.
 
 Definition jpyval (j : json) : option pyval :=
@@ -29,6 +29,36 @@ Definition of_outcome (r : res bool) : json :=
   | ROk false => JStr "reject"
   | RTypeError => JStr "typeerror"
   end.
+
+Definition jkind (j : json) : option kind :=
+  do t <- jstr j ;;
+  if String.eqb t "po" then Some PosOnly else if String.eqb t "pk" then Some PosOrKw
+  else if String.eqb t "ko" then Some KwOnly else None.
+Definition jpair {A B} (fa : json -> option A) (fb : json -> option B) (j : json) : option (A * B) :=
+  match j with JList [x; y] => do a <- fa x ;; do b <- fb y ;; Some (a, b) | _ => None end.
+Definition of_pres (r : pres (list (string * Z))) : json :=
+  match r with
+  | POk b => JObj [("ok", of_list (fun kv => JList [JStr (fst kv); JInt (snd kv)]) b)]
+  | PErr TypeError => JObj [("err", JStr "TypeError")]
+  | PErr ValueError => JObj [("err", JStr "ValueError")]
+  end.
+
+(* test functions for the dispatchers: c0 + sum_j c_j x_j + cp * prod_j x_j, elementwise, scalars
+   broadcast against the (common) shape of the non-scalar arguments *)
+Definition poly_fn (coeffs : list Q) (args : list qarr) : qarr :=
+  let sh := match filter (fun a => match shape a with [] => false | _ => true end) args with
+            | a :: _ => shape a | [] => [] end in
+  let bval (a : qarr) (idx : list nat) : Q :=
+    match shape a with [] => qget a [] | _ => qget a idx end in
+  tabulate sh (fun idx =>
+    let xs := map (fun a => bval a idx) args in
+    let c0 := hd 0%Q coeffs in
+    let cp := last coeffs 0%Q in
+    let lin := fold_right Qplus 0%Q (zip_with Qmult (tl coeffs) xs) in
+    Qred (c0 + lin + cp * fold_right Qmult 1%Q xs)%Q).
+
+Definition has_dup (l : list string) : bool :=
+  negb (Nat.eqb (length (nodup string_dec l)) (length l)).
 
 Definition run_kernel (fn : string) (c : json) : option json :=
   if String.eqb fn "lin_coord" then
@@ -70,6 +100,35 @@ Definition run_kernel (fn : string) (c : json) : option json :=
                | Some j, Some n => match jlist_of jnat j with Some ids => Some (mkSeg ids n) | None => None end
                | _, _ => None end in
     Some (of_arr of_val (solve_discrete_problem_no_shocks a axes seg tt))
+  else if String.eqb fn "wrapper" then
+    do s <- jfield_of (jlist_of (jpair jstr jkind)) "sig" c ;;
+    do w <- jfield_of jstr "wrapper" c ;;
+    do args <- jfield_of (jlist_of jint) "args" c ;;
+    do kw <- jfield_of (jlist_of (jpair jstr jint)) "kwargs" c ;;
+    if String.eqb w "allow_only_kwargs" then Some (of_pres (allow_only_kwargs s (bind s) args kw))
+    else if String.eqb w "allow_args" then Some (of_pres (allow_args s (bind s) args kw))
+    else if String.eqb w "direct" then Some (of_pres (bind s args kw))
+    else None
+  else if String.eqb fn "dispatch" then
+    do which <- jfield_of jstr "which" c ;;
+    do ps <- jfield_of (jlist_of jstr) "params" c ;;
+    do coeffs <- jfield_of (jlist_of jq) "coeffs" c ;;
+    do vars <- jfield_of (jlist_of jstr) "variables" c ;;
+    do kw <- jfield_of (jlist_of (jpair jstr (jarr jq))) "kwargs" c ;;
+    let f := mkFunc ps (poly_fn coeffs) in
+    if String.eqb which "productmap" then
+      if has_dup vars then Some (JObj [("err", JStr "ValueError")])
+      else Some (of_arr of_q (productmap f vars kw))
+    else if String.eqb which "vmap_1d" then
+      if has_dup vars then Some (JObj [("err", JStr "ValueError")])
+      else Some (of_arr of_q (vmap_1d_named f vars kw))
+    else if String.eqb which "spacemap" then
+      do sparse <- jfield_of (jlist_of jstr) "sparse" c ;;
+      do pdf <- jfield_of jbool "put_dense_first" c ;;
+      if has_dup vars || has_dup sparse || existsb (fun v => mem_str v sparse) vars
+      then Some (JObj [("err", JStr "ValueError")])
+      else Some (of_arr of_q (spacemap_named f vars sparse pdf kw))
+    else None
   else if String.eqb fn "lin_points" then
     do a <- jfield_of jq "start" c ;; do b <- jfield_of jq "stop" c ;; do n <- jfield_of jnat "n" c ;;
     Some (of_list of_q (lin_points a b n))
